@@ -58,7 +58,8 @@ type CaseJ struct {
 	Oracle   []string       `json:"oracle"`   // the property's own statement evaluated on the real run: violations
 	Excluded string         `json:"excluded"` // non-empty: the shadow did not predict the run; no correspondence for this case
 	Stats    map[string]int `json:"stats"`
-	Notes    []string       `json:"notes,omitempty"` // failing steps (free text, not an observable)
+	Notes    []string       `json:"notes,omitempty"`    // failing steps (free text, not an observable)
+	ExecIdx  []int          `json:"exec_idx,omitempty"` // call indices of the Execs of the compensating statements (clean delivery)
 }
 
 // ---------------------------------------------------------------- shadow
@@ -840,6 +841,24 @@ func runPlan(p *Plan, faultAt int) (*CaseJ, int) {
 				}
 			}
 			c.Stats["queries"] = nq
+			// positions (among the counted calls) of every Exec of a prepared compensating statement of this delivery
+			c.ExecIdx = nil
+			pos := 0
+			for _, e := range tr.Journal {
+				if e.Seq <= st.SeqFrom || e.Seq > st.SeqTo || e.DB == nil || e.DB.DSNTag == "bare" {
+					continue
+				}
+				switch e.DB.Kind {
+				case "BEGIN", "EXEC", "QUERY", "PREPARE", "STMT_EXEC", "STMT_QUERY", "COMMIT":
+					if strings.Contains(strings.ToUpper(e.DB.SQL), "INFORMATION_SCHEMA") {
+						continue
+					}
+					if e.DB.Kind == "STMT_EXEC" && !strings.Contains(strings.ToLower(e.DB.SQL), "undo_log") {
+						c.ExecIdx = append(c.ExecIdx, pos)
+					}
+					pos++
+				}
+			}
 		}
 		switch {
 		case fired:
@@ -1017,7 +1036,15 @@ func Run(args map[string]string) {
 			if kf > 0 && len(ks) > kf {
 				// always the first, the last (COMMIT) and a sample in between
 				pick := []int{0, ops - 1}
-				for len(pick) < kf {
+				// every Exec of every prepared compensating statement (insert / update / delete undo alike, one per row),
+				// at most six of them when there are more
+				ex := append([]int{}, base.ExecIdx...)
+				for len(ex) > 6 {
+					i := r.Intn(len(ex))
+					ex = append(ex[:i], ex[i+1:]...)
+				}
+				pick = append(pick, ex...)
+				for len(pick) < kf+len(ex) && ops > 2 {
 					pick = append(pick, 1+r.Intn(ops-2))
 				}
 				ks = pick
